@@ -26,6 +26,11 @@ def digest(obj) -> str:
     return hashlib.sha256(json.dumps(obj, sort_keys=True, default=str).encode()).hexdigest()[:16]
 
 
+def H(obj) -> int:
+    """stable 48-bit digest (independent of PYTHONHASHSEED, unlike hash())"""
+    return int(hashlib.blake2b(repr(obj).encode('utf-8', 'replace'), digest_size=6).hexdigest(), 16)
+
+
 def workers_default():
     return int(os.environ.get('VERIF_WORKERS', '0')) or min(16, os.cpu_count() or 4)
 
@@ -46,7 +51,19 @@ def _run_task(args):
     finally:
         faulthandler.cancel_dump_traceback_later()
     res['subseed'] = subseed
+    res['digest'] = result_digest(res)
     return res
+
+
+def result_digest(res):
+    """digest of everything a sub-seed's exploration decided (not of timing or step counts, which may legitimately
+    differ with the interpreter's hash seed through sets the simulator does not control)"""
+    core = {'evaluations': res.get('evaluations'), 'runs': res.get('runs'),
+            'violations': sorted((v['class'], str(v.get('group'))) for v in res.get('violations', [])),
+            'probes': sorted(res.get('probes', {}).items()), 'faults_fired': sorted(res.get('faults_fired', {}).items()),
+            'discarded': sorted(res.get('discarded', {}).items()), 'distinct': list(res.get('distinct', [])),
+            'harness': [str(h)[:80] for h in res.get('harness', [])]}
+    return digest(core)
 
 
 def pool_map(mod_name, subseeds, cfg, workers=None, wall_budget=None):
